@@ -34,8 +34,9 @@ Print Assumptions C09_close_once.
    - ClientDisconnected: closed, no further bytes;
    - anything else after output began: closed, no further bytes;
    - anything else before any output: the ladder's 500 is served, then closed
-     (the only exception the 500 task itself can let out is an encode error of
-     the server's own strings). *)
+     (whether or not the 500 itself could be built and sent: a head that cannot
+     be encoded or a client that went away no longer lets anything escape,
+     /repo fix 1a765e6). *)
 Theorem C09_outcome : forall c r a disc, outcome_spec (run_task c r a disc).
 Proof. exact (fun c r a disc => service_outcome py_cap py_lower c r disc a). Qed.
 Print Assumptions C09_outcome.
@@ -52,18 +53,16 @@ Theorem C09_contained : forall c r a disc e,
      o_close res = true /\ o_next res = false /\ o_escaped res = None
      /\ o_served_500 res = false /\ o_writes res = o_writes1 res)
   /\ (o_wrote_header1 res = false ->
-     o_served_500 res = true
-     /\ (o_escaped res = None -> o_close res = true /\ o_next res = false)
-     /\ (forall e1, o_escaped res = Some e1 -> e1 = UnicodeEncodeError)).
+     o_served_500 res = true /\ o_close res = true /\ o_next res = false /\ o_escaped res = None).
 Proof. exact (contained py_cap py_lower). Qed.
 Print Assumptions C09_contained.
 
-(* Nothing leaves service() except an encode error of the server's own 500
-   (server strings that are not latin-1: configuration, not application). *)
-Theorem C09_escape : forall c r a disc e,
-  let res := run_task c r a disc in
-  o_escaped res = Some e -> e = UnicodeEncodeError /\ o_served_500 res = true.
-Proof. exact (escape_only_encode py_cap py_lower). Qed.
+(* Nothing leaves service(), for every configuration (server strings that are not
+   latin-1 included), request, application and disconnect position.  (Until /repo
+   fix 1a765e6 an encode error of the server's own 500 did, and stranded the
+   connection.) *)
+Theorem C09_escape : forall c r a disc, o_escaped (run_task c r a disc) = None.
+Proof. exact (nothing_escapes py_cap py_lower). Qed.
 Print Assumptions C09_escape.
 
 (* The worker survives: handler_thread's catch-all turns whatever escaped
